@@ -275,12 +275,23 @@ class Block2Stream(Stream):
 
 TRUSTED = [
     "Coq 8.16.1 kernel + vm_compute",
-    "hand-written models Sweep.v / Params.v tied to /repo by this correspondence run (sampled)",
+    "hand-written models Sweep.v / Params.v tied to /repo (a) for ALL assignments with distinct names by the translation "
+    "obligation: harness/translate_sweep.py (trusted, fail-closed symbolic executor) turns the current source of the sweep "
+    "bookkeeping of Solver.solve (common length + broadcast) and Model.solve (common length + the dictionary create_S sees at "
+    "every point) into Gallina and coq/templates/SweepSrcProof.v proves them equal to Sweep.normalise / Sweep.sweep_solve "
+    "(the latter for create_S functions that depend on the dictionary only through its entries); (b) by this correspondence run",
+    "translator's reading of numpy/Python: np.reshape(v, -1) of a scalar is the one-element list, len, indexing, "
+    "np.array([v[0] for i in range(n)]) = n copies, dict item assignment / update / items per the language reference",
     "for library blocks the scalar solves of /repo are the oracle (create_S itself is C09's subject)",
 ]
 
 if __name__ == "__main__":
+    import translate_sweep
+    from common import source_obligation
     main("C04", [SweepStream(), BlockStream(), Block2Stream()],
+         source_obligations=[source_obligation(
+             "SweepSrc_C04", translate_sweep.translate, "SweepSrcProof.v",
+             ["solver_normalise_src_is_normalise", "model_sweep_src_is_sweep_solve"])],
          level_text="props/C04.v proves the normalisation logic for any scalar solve function: index k is the scalar solve at "
                     "the k-th value of every parameter, scalars and length-1 arrays are broadcast, two different lengths > 1 are "
                     "rejected. The tie (i) sweeps solver hierarchies with probe/spy leaves over random mixes of scalar / length-1 / "
